@@ -65,11 +65,14 @@ func (g *genServer) handle(w http.ResponseWriter, r *http.Request) {
 		if body, ok := g.files[stem]; ok {
 			g.hits[stem]++
 			w.Header().Set("Content-Type", "text/plain; charset=utf-8")
+			if j, ok := g.cut[stem]; ok && j < 0 {
+				// the connection drops before any answer, on EVERY request for this target: net/http
+				// transparently repeats an idempotent request that failed on a reused connection, so a
+				// one-off drop would reach the tool only when this target happens to be fetched first
+				panic(http.ErrAbortHandler)
+			}
 			if j, ok := g.cut[stem]; ok && g.hits[stem] == 1 {
 				// transport fault: the transfer breaks off (a retry gets the whole file)
-				if j < 0 {
-					panic(http.ErrAbortHandler) // the connection drops before any answer
-				}
 				w.Header().Set("Content-Length", fmt.Sprint(len(body)))
 				w.WriteHeader(200)
 				w.Write(body[:j])
